@@ -11,6 +11,11 @@
   to whole nanoseconds).  `k` = number of connections sharing the listener, `w` = largest single
   call; the `k·w` term is there because a call moves its bytes *before* it waits for their tokens.
 
+  Every call waits for its tokens, whatever deadline is armed on the connection
+  (`c20_wait_ignores_deadline`); a wait that gave up at a deadline would break the bound
+  (`c20_unwaited_call_witness`; `c20_throughput_bound_waited_partial` is the bound under "no call
+  was refused").
+
   Two hypotheses exclude what the code really does wrong, each with a kernel-checked witness:
   `w ≤ B` (a call larger than the burst is not throttled, F27) and time-ordered stamps (concurrent
   callers reach the bucket out of order and x/time/rate credits the backward step twice, F28 — the
@@ -266,6 +271,68 @@ example : jitter ⟨1000000000, 10⟩ (initRun ⟨1000000000, 10⟩ 2)
       [⟨0, 0, 10⟩, ⟨1000, 0, 10⟩, ⟨0, 1, 1⟩, ⟨1000, 0, 10⟩, ⟨1, 1, 1⟩, ⟨1000, 0, 10⟩, ⟨2, 1, 1⟩, ⟨1000, 0, 10⟩] = 2997 ∧
     bytesIn [⟨0, 0, 10⟩, ⟨1000, 0, 10⟩, ⟨0, 1, 1⟩, ⟨1000, 0, 10⟩, ⟨1, 1, 1⟩, ⟨1000, 0, 10⟩, ⟨2, 1, 1⟩, ⟨1000, 0, 10⟩]
       1000 1000 = 40 := by
+  decide
+
+/-! ### deadlines do not shorten the wait -/
+
+/-- `Conn.Read/Write` wait for their tokens whatever deadline is armed on the connection: the call
+    on a connection with a deadline `left` ns ahead is the call without one (`Conn` keeps no deadline;
+    `SetDeadline…` are the embedded `net.Conn`'s; the wait runs on `context.Background()`), and it is
+    what a deadline-honouring wait does when no deadline is set. -/
+theorem c20_wait_ignores_deadline (L : Listener) (s : Sys) (op : Op) (left : Option Nat) :
+    stepArmed L s op left = step L s op ∧
+    (∀ (l : Limiter) (st : LState) (t n : Nat), waitNWithin l st t n none = waitN l st t n) :=
+  ⟨rfl, fun l st t n => waitNWithin_eq l st t n none (fun _ _ _ h => by cases h)⟩
+
+example : (stepArmed (newListener 1048576 0) ⟨⟨0, 0⟩, ⟨0, 3⟩⟩ ⟨3, 0, .tx, 1048576⟩ (some 300000000)).2 = 1000000003 := by
+  decide
+
+/-- The bound for waits that **honour** a deadline (`WaitN` with a deadline context: refuse at once,
+    reserving nothing, when the wait is longer than the time left — the caller ignoring the refusal
+    as `Conn` ignores `WaitN`'s result).  It is **false** (`c20_unwaited_call_witness`): this is why
+    `Conn`'s wait must not depend on the connection's deadlines. -/
+def c20_deadline_honouring_full_statement : Prop :=
+  ∀ (l : Limiter) (w k : Nat) (ops : List DOp) (t0 t1 : Nat),
+    0 < l.rate → w ≤ l.burst → validD l w (initRun l k) ops = true → t0 ≤ t1 →
+    bytesIn (ops.map DOp.toB) t0 t1 * nsPerSec ≤ (l.burst + k * w) * nsPerSec + l.rate * (t1 - t0 + 1)
+
+/-- a call that does not wait for its tokens breaks the bound: rate 1 B/s, burst 2 B, two
+    connections with a deadline 1 s ahead, 2-byte calls.  Connection 0 takes the burst; each call of
+    connection 1 would have to wait 2 s > 1 s, is refused, reserves nothing and returns at once — so
+    it may call again: 8 bytes move at the instant 0 although `B + k·w + R·1 ns` allows 6 (and every
+    further call adds 2 more). -/
+theorem c20_unwaited_call_witness : ¬ c20_deadline_honouring_full_statement := by
+  intro h
+  have := h ⟨1, 2⟩ 2 2
+    [⟨0, 0, 2, some 1000000000⟩, ⟨0, 1, 2, some 1000000000⟩, ⟨0, 1, 2, some 1000000000⟩, ⟨0, 1, 2, some 1000000000⟩]
+    0 0 (by decide) (by decide) (by decide) (by decide)
+  revert this
+  decide
+
+/-- the refused calls of the witness leave the bucket untouched (nothing is ever accounted for), and
+    the same schedule with plain waits is not valid (connection 1 is still waiting at time 0). -/
+example : (stepD ⟨1, 2⟩ (stepD ⟨1, 2⟩ (initRun ⟨1, 2⟩ 2) ⟨0, 0, 2, some 1000000000⟩) ⟨0, 1, 2, some 1000000000⟩).st =
+      (stepD ⟨1, 2⟩ (initRun ⟨1, 2⟩ 2) ⟨0, 0, 2, some 1000000000⟩).st ∧
+    validB ⟨1, 2⟩ 2 (initRun ⟨1, 2⟩ 2) [⟨0, 0, 2⟩, ⟨0, 1, 2⟩, ⟨0, 1, 2⟩] = false := by
+  decide
+
+/-- **The bound needs exactly that every call waited.** For deadline-honouring waits, a valid
+    schedule in which no call was refused (every wait fitted into the time its deadline left, or no
+    deadline was armed) obeys the throughput bound. -/
+theorem c20_throughput_bound_waited_partial (l : Limiter) (w k : Nat) (ops : List DOp) (t0 t1 : Nat)
+    (hR : 0 < l.rate) (hw : w ≤ l.burst) (hv : validD l w (initRun l k) ops = true)
+    (ha : allWaitedD l (initRun l k) ops = true) (h01 : t0 ≤ t1) :
+    bytesIn (ops.map DOp.toB) t0 t1 * nsPerSec ≤ (l.burst + k * w) * nsPerSec + l.rate * (t1 - t0 + 1) :=
+  c20_throughput_bound_partial l w k (ops.map DOp.toB) t0 t1 hR hw (validD_waited l w ops (initRun l k) ha hv) h01
+
+/-- non-vacuity: rate 2 B/s, burst 4 B, two connections, deadlines 3 s ahead; the third call waits
+    1 s ≤ 3 s, the fourth 2 s ≤ 3 s; with a deadline 1 s ahead the fourth would have been refused. -/
+example : validD ⟨2, 4⟩ 2 (initRun ⟨2, 4⟩ 2)
+      [⟨0, 0, 2, some 3000000000⟩, ⟨0, 1, 2, none⟩, ⟨0, 0, 2, some 3000000000⟩, ⟨0, 1, 2, some 3000000000⟩] = true ∧
+    allWaitedD ⟨2, 4⟩ (initRun ⟨2, 4⟩ 2)
+      [⟨0, 0, 2, some 3000000000⟩, ⟨0, 1, 2, none⟩, ⟨0, 0, 2, some 3000000000⟩, ⟨0, 1, 2, some 3000000000⟩] = true ∧
+    allWaitedD ⟨2, 4⟩ (initRun ⟨2, 4⟩ 2)
+      [⟨0, 0, 2, some 3000000000⟩, ⟨0, 1, 2, none⟩, ⟨0, 0, 2, some 3000000000⟩, ⟨0, 1, 2, some 1000000000⟩] = false := by
   decide
 
 /-- **From-start form**: bytes completed by time `t` are at most `B + k·w + R·(t+1)/10⁹`. -/
